@@ -290,31 +290,12 @@ func (te *TemplateEngine) parseTemplate(template *Template) error {
 		baseName := extendsMatches[1]
 		baseTemplate, err := te.getTemplateInternal(baseName)
 		if err == nil {
+			// 只记录父模板；块重写在渲染子模板时应用，加载子模板不会修改父模板
 			template.Parent = baseTemplate
-			// 处理块重写
-			te.processBlockOverrides(template, baseTemplate)
 		}
 	}
 
 	return nil
-}
-
-// processBlockOverrides 处理块重写
-func (te *TemplateEngine) processBlockOverrides(childTemplate, parentTemplate *Template) {
-	// 遍历子模板的块定义，检查是否重写父模板的块
-	for blockName, childBlock := range childTemplate.DefinedBlocks {
-		if parentBlock, exists := parentTemplate.DefinedBlocks[blockName]; exists {
-			// 标记父模板块被重写
-			parentBlock.IsOverridden = true
-			verifPoint("template.blockOverride")
-			parentBlock.Content = childBlock.Content
-		}
-	}
-
-	// 递归处理父模板的父模板
-	if parentTemplate.Parent != nil {
-		te.processBlockOverrides(childTemplate, parentTemplate.Parent)
-	}
 }
 
 // RenderToDocument 渲染模板到新文档
@@ -359,25 +340,11 @@ func (te *TemplateEngine) RenderToDocument(templateName string, data *TemplateDa
 
 // renderTemplate 渲染模板
 func (te *TemplateEngine) renderTemplate(template *Template, data *TemplateData) (string, error) {
-	var content string
+	// 处理继承：沿继承链从最上层的父模板开始，逐层把子模板重写的块替换进去
+	// （在未渲染的内容上进行，父模板本身不被修改）
+	content := te.resolveInheritedContent(template, 0)
 
-	// 处理继承：如果有父模板，使用父模板作为基础
-	if template.Parent != nil {
-		// 渲染父模板作为基础内容
-		parentContent, err := te.renderTemplate(template.Parent, data)
-		if err != nil {
-			return "", err
-		}
-		content = parentContent
-
-		// 应用子模板的块重写到父模板内容中
-		content = te.applyBlockOverrides(content, template)
-	} else {
-		// 没有父模板，直接使用当前模板内容
-		content = template.Content
-	}
-
-	// 渲染块定义
+	// 渲染块定义：去掉块标记，保留块的内容
 	content = te.renderBlocks(content, template, data)
 
 	// 渲染变量
@@ -395,9 +362,18 @@ func (te *TemplateEngine) renderTemplate(template *Template, data *TemplateData)
 	return content, nil
 }
 
+// resolveInheritedContent 返回模板应用继承之后、尚未渲染的内容：
+// 没有父模板时就是模板自身的内容，否则是父模板（递归解析后）的内容，其中被本模板重写的块换成本模板的定义
+func (te *TemplateEngine) resolveInheritedContent(template *Template, depth int) string {
+	if template.Parent == nil || depth > 32 {
+		return template.Content
+	}
+	return te.applyBlockOverrides(te.resolveInheritedContent(template.Parent, depth+1), template)
+}
+
 // applyBlockOverrides 将子模板的块重写应用到父模板内容中
 func (te *TemplateEngine) applyBlockOverrides(content string, template *Template) string {
-	// 将子模板的块内容替换父模板中对应的块占位符
+	// 将子模板的块内容替换父模板中对应块的内容；块标记保留，使更下层的子模板还能继续重写
 	blockPattern := regexp.MustCompile(`(?s)\{\{#block\s+"([^"]+)"\}\}.*?\{\{/block\}\}`)
 
 	return blockPattern.ReplaceAllStringFunc(content, func(match string) string {
@@ -406,7 +382,7 @@ func (te *TemplateEngine) applyBlockOverrides(content string, template *Template
 			blockName := matches[1]
 			// 如果子模板中定义了这个块，使用子模板的内容
 			if childBlock, exists := template.DefinedBlocks[blockName]; exists {
-				return childBlock.Content
+				return "{{#block \"" + blockName + "\"}}" + childBlock.Content + "{{/block}}"
 			}
 		}
 		return match // 保持原样
@@ -420,20 +396,8 @@ func (te *TemplateEngine) renderBlocks(content string, template *Template, data 
 	return blockPattern.ReplaceAllStringFunc(content, func(match string) string {
 		matches := blockPattern.FindStringSubmatch(match)
 		if len(matches) >= 3 {
-			blockName := matches[1]
-			blockContent := matches[2]
-
-			// 检查是否有定义的块
-			if block, exists := template.DefinedBlocks[blockName]; exists {
-				// 如果块被重写，使用重写的内容，否则使用默认内容
-				if block.IsOverridden {
-					return block.Content
-				}
-				return block.DefaultContent
-			}
-
-			// 如果没有定义块，使用原始内容
-			return blockContent
+			// 继承已经在 resolveInheritedContent 中处理：标记之间就是最终生效的块内容
+			return matches[2]
 		}
 		return match
 	})
